@@ -409,6 +409,7 @@ func cmdCheck(args []string) int {
 		_ = allLemmaAx
 		return out
 	}
+	var retried []string
 	opt := solveOpts{timeout: 30, seed: seed, outDir: filepath.Join(*verif, "out", fmt.Sprintf("%s-%s-%d", ps.ID, *tier, os.Getpid())),
 		cacheDir: filepath.Join(*verif, ".cache"), useCache: true, workers: 5, replay: ps.Replay, replayMore: ps.ReplayMore, property: ps.ID}
 	if os.Getenv("VERIF_NOCACHE") != "" {
@@ -422,7 +423,40 @@ func cmdCheck(args []string) int {
 	}
 	pruneOutDirs(filepath.Join(*verif, "out"))
 	os.RemoveAll(opt.outDir)
-	e.solveAll(append(append([]*Obligation{}, selected...), aux...), axiomsFor, opt)
+	// solveWithRetry: a time-out is not an answer.  When a handful of obligations remain undecided (no solver said
+	// sat) after the staged attempts, they are tried once more, alone, with twice the time: by then the bulk of this
+	// run's queries is out of the way, so a machine that was busy - with this run or with others - gets a second
+	// chance before anything is reported.  Costs time only when something is undecided.
+	solveWithRetry := func(obls []*Obligation) {
+		e.solveAll(obls, axiomsFor, opt)
+		var again []*Obligation
+		for _, o := range obls {
+			if o.Result != "unsat" && o.Result != "sat" && o.Kind != "cover" {
+				again = append(again, o)
+			}
+		}
+		if len(again) == 0 || len(again) > 8 {
+			return
+		}
+		o2 := opt
+		o2.timeout = opt.timeout * 2
+		o2.useCache = false
+		if o2.workers > 2 {
+			o2.workers = 2
+		}
+		prev := map[*Obligation]float64{}
+		for _, o := range again {
+			prev[o] = o.Seconds
+		}
+		e.solveAll(again, axiomsFor, o2)
+		for _, o := range again {
+			o.Seconds += prev[o]
+			if o.Result == "unsat" {
+				retried = append(retried, o.Name)
+			}
+		}
+	}
+	solveWithRetry(append(append([]*Obligation{}, selected...), aux...))
 	// unmasking pass: a precondition or assertion of ANOTHER property that does not hold on this tree is not
 	// reported here, but everything after it was proved under a false assumption.  Translate again without
 	// assuming those clauses and judge this property's obligations on that.
@@ -454,7 +488,10 @@ func cmdCheck(args []string) int {
 		}
 		selected, aux = pick()
 		selected = append(selected, lemmaObls...)
-		e.solveAll(append(append([]*Obligation{}, selected...), aux...), axiomsFor, opt)
+		solveWithRetry(append(append([]*Obligation{}, selected...), aux...))
+	}
+	if len(retried) > 0 {
+		fmt.Printf("note: %d obligation(s) were undecided within the first time limit and discharged on the second attempt: %s\n", len(retried), strings.Join(retried, ", "))
 	}
 	if len(unmasked) > 0 {
 		fmt.Printf("note: %d clause(s) of other properties do not hold on this tree and were not assumed: %s\n", len(unmasked), strings.Join(unmasked, ", "))
